@@ -15,8 +15,11 @@ element is the same (`dedupFirst_snoc`); the survivors are a sublist of `xs` (or
 What "the same tuple of values" means is a theorem, not a definition: `same_tuple_is_value_equality` — equal
 length and `Value.beq` (the implementation's `==`) position by position; the hash part is implied (C16:
 equal ⇒ same hash stream), so NULL = NULL, -0.0 = 0.0, NaN = NaN, nested arrays element-wise, and `tupleSame`
-is an equivalence. Where the sentence is silent the code is mirrored: an INT and a REAL of the same numeric
-value are different tuples (`Value`'s derived `==` compares the variants).
+is an equivalence. KNOWN FINDING D45 (open; INT vs REAL in `Value`'s derived order/equality): the sentence says
+"numbers by value", but an INT and a REAL of the same numeric value are different tuples for DISTINCT (`Value`'s
+derived `==` compares the variants first) — `d45_int_real_not_same_tuple` below is the kernel-checked witness; all
+other clauses of `same_tuple_is_value_equality` are as the sentence demands. It needs an output column that is INT
+on one row and REAL on another (e.g. a CASE with branches of both types); a typed column never mixes them.
 
 Runs whose version without DISTINCT (and without LIMIT) fails are outside the sentence (errors do not depend on
 DISTINCT — projections are evaluated before the memory is consulted — so this is the same hypothesis as in C07).
@@ -163,11 +166,13 @@ theorem agg_distinct_step_tables (O : Oracles) (qy : Query) (q : AggStmt) (hq : 
 
 /-! ### non-vacuity and concrete behaviour -/
 
--- NULL equals NULL, -0.0 equals 0.0, NaN equals NaN; an INT and a REAL of the same value are different tuples
+-- NULL equals NULL, -0.0 equals 0.0, NaN equals NaN
 example : tupleSame [.null, .int 1] [.null, .int 1] = true := by decide
 example : tupleSame [.real 0x8000000000000000] [.real 0] = true := by decide
 example : tupleSame [.real 0x7ff8000000000000] [.real 0x7ff8000000000001] = true := by decide
-example : tupleSame [.int 1] [.real 0x3ff0000000000000] = false := by decide
+/-- KNOWN FINDING D45, instance for DISTINCT (kept as a kernel-checked witness): INT 1 and REAL 1.0 are not the
+same tuple although they are the same number — `Value`'s derived equality distinguishes the types -/
+theorem d45_int_real_not_same_tuple : tupleSame [.int 1] [.real 0x3ff0000000000000] = false := by decide
 example : tupleSame [.int 1, .null] [.int 1, .int 2] = false := by decide
 -- first occurrences: a tuple recurring after a gap, tuples differing in one column / only by NULL
 example : dedupFirst tupleSame [[.int 1, .null], [.int 1, .int 2], [.null, .null], [.int 1, .null], [.int 1, .int 2]] =
